@@ -170,6 +170,28 @@ def refVal (env : MEnv) (h : Heap) (target : Val) : ValSpec → Option Val
     | .ok [v] => some v
     | _ => none
 
+/-- value kinds outside the model: a wildcard value path, a *literal* builtin container
+    (arg mode evaluates it to a rebuilt copy — C08) -/
+def valUnsupported (h : Heap) : ValSpec → Bool
+  | .path s => hasStar s
+  | .lit v => rebuilds h v
+
+/-- the steps of a value path are item / attribute / plain-segment steps -/
+def valWf : ValSpec → Bool
+  | .path s => C01.wfSteps s
+  | .lit _ => true
+
+/-- side condition under which the `missing` recursion is covered by the theorems: T-rooted
+    destination, immediate path arguments, and a value that arg mode leaves alone -/
+def missingOK (env : MEnv) (h : Heap) (target : Val) (sroot : Bool) (orig : List Step) (vs : ValSpec) :
+    Missing → Bool
+  | .none => true
+  | .factory _ =>
+    !sroot && noScope env && argsScalar orig &&
+      (match refVal env h target vs with
+       | some v => valOK h v
+       | none => true)
+
 /-- **The property's prescription** for `assign(target, path, val, missing)`;
     `root` is the object the destination path starts from (the target, or the
     scope mapping for an S-rooted path). -/
@@ -179,7 +201,7 @@ def refAssign (env : MEnv) (h : Heap) (target root : Val) (orig : List Step) (vs
   | none => .fail true
   | some (op, arg) =>
     if !finalOk op then .fail true else
-    if (match vs with | .path s => hasStar s | .lit v => rebuilds h v) then .unsupported else
+    if valUnsupported h vs then .unsupported else
     match refVal env h target vs with
     | none => .fail true
     | some v =>
@@ -282,5 +304,13 @@ def WF (env : MEnv) : Bool :=
      assignHandlerExcs.all (fun n => C01.caughtBy env.t caught ⟨n⟩)
    | _ => false) &&
   env.t.excTable.isSub "PathAssignError" "GlomError"
+
+
+/-- the hypotheses of the wildcard-free theorems (`Props.C11.Hyps`), as one decidable test: the
+    driver reports for every case whether it lies in the fragment the theorems cover -/
+def covered (env : MEnv) (h : Heap) (target : Val) (sroot : Bool) (orig : List Step) (vs : ValSpec)
+    (missing : Missing) : Bool :=
+  WF env && classesOK env && C01.wfSteps orig && valWf vs && !valUnsupported h vs &&
+    missingOK env h target sroot orig vs missing
 
 end Glom.C11
